@@ -1,6 +1,9 @@
 (* C03, once hand-off: in every execution of OnceModel, instrumented by Model/HbOnce.v (which credits ONLY the memory
-   orders requested in the C source, Gen/Sites.v), the view of the thread that ran the once-function, at its
-   ATM_STORE_REL (once, 2), is contained in the view of every thread at every return of a call on that word.
+   orders requested in the C source, Gen/Sites.v; the abstract steps on once_mu / once_cv get NO ordering credit), the
+   view of the thread that ran the once-function, at its ATM_STORE_REL (once, 2) -- and already at the return of the
+   once-function (OnceModel's f-end step, which precedes the store in program order) -- is contained in the view of
+   every thread at every return of a call on that word (for a blocking call the return is its final nsync_mu_unlock;
+   the acquire load that read 2 is an earlier step of the same thread).
    Part 1 is the only place where the regenerated inventory is evaluated: if the store became relaxed, or one of the
    loads that let a caller return (the entry load of any of the four public functions, impl#1, impl#5) became relaxed,
    [once_orders] fails and with it everything below.
@@ -50,7 +53,7 @@ Proof. eapply HbProof.vle_trans; [apply vle_tick | apply HbProof.vle_join_l]. Qe
 Lemma ohb_step_grows h t x e : vle (oviews h t) (oviews (ohb_step h t x e) t).
 Proof.
   unfold ohb_step.
-  destruct x as [o|]; [destruct e as [s v|s [|]|s v|]|]; cbn [oviews]; rewrite fupd_same;
+  destruct x as [o|]; [destruct e as [s v|s [|]|s v|?|?|?|?|?|?|?|?|?| |]|]; cbn [oviews]; rewrite fupd_same;
     try destruct (has_acq _); first [apply vle_tick | apply vle_tick_join].
 Qed.
 
@@ -60,132 +63,270 @@ Qed.
 Definition hnext (h : ohb) (w : world) (t : nat) : ohb :=
   ohb_step h t (pc_obj (pc (get (begin_call w t) t))) (snd (step w t)).
 
+(* only the stepping thread's view changes *)
+Lemma ohb_step_other h t x e t' : t' <> t -> oviews (ohb_step h t x e) t' = oviews h t'.
+Proof.
+  intros n. unfold ohb_step.
+  destruct x as [o|]; [destruct e as [s v|s [|]|s v|?|?|?|?|?|?|?|?|?| |]|]; cbn [oviews]; apply fupd_other; exact n.
+Qed.
+
 Lemma begin_call_shared w t :
   once (begin_call w t) = once w /\ completed (begin_call w t) = completed w /\
   returned (get (begin_call w t) t) = returned (get w t).
 Proof.
   destruct (begin_call_cases w t) as [[-> _]|(o&sp&rest&Hpc&Hc&->)]; [auto|].
-  cbn [once completed]. repeat split.
+  unfold set_thr. cbn [once completed]. repeat split.
   rewrite get_upd_same; [reflexivity|]. apply calls_in_range. rewrite Hc. discriminate.
 Qed.
 
-(* the step that completes word o is the winner's store; it publishes the winner's view *)
+Lemma begin_call_pc w t : pc (get w t) <> OIdle -> begin_call w t = w.
+Proof. intros H. destruct (begin_call_cases w t) as [[E _]|(o&sp&rest&Hpc&_)]; [exact E|congruence]. Qed.
+
+Ltac brk_core :=
+  repeat match goal with
+         | |- context [if ?c then _ else _] => destruct c eqn:?
+         | |- context [match mu ?a ?b with _ => _ end] => destruct (mu a b)
+         end.
+
+(* the step that makes word o 2 is the winner's store; it publishes the winner's view *)
 Lemma publish_core w h t o :
-  completed w o = false -> completed (fst (step_core w t)) o = true ->
-  once (fst (step_core w t)) o = 2 /\
+  once w o <> 2 -> once (fst (step_core w t)) o = 2 ->
   vle (oviews (ohb_step h t (pc_obj (pc (get w t))) (snd (step_core w t))) t)
       (orel (ohb_step h t (pc_obj (pc (get w t))) (snd (step_core w t))) o).
 Proof.
-  intros Hf. unfold step_core.
-  destruct (pc (get w t)) as [|o0 sp|o0 sp|o0 sp|o0 sp|o0 sp|o0 sp] eqn:Hpc; cbv zeta;
-    repeat match goal with |- context [if ?c then _ else _] => destruct c end;
-    cbn [fst snd]; unfold ret, set_pc; cbn [completed]; try congruence.
-  (* ORunning *)
-  unfold fupd at 1. destruct (Nat.eqb_spec o o0) as [->|Hne]; [intros _|congruence].
-  cbn [once pc_obj]. split; [apply fupd_same|].
-  unfold ohb_step. rewrite rel14. cbn [oviews orel]. rewrite !fupd_same. apply HbProof.vle_refl.
+  intros Hf. unfold step_core, do_lock, do_unlock, ret, set_pc, set_thr, set_mu.
+  destruct (pc (get w t)) as [|o0 sp|o0 sp|o0 z|o0 sp|o0 sp|o0|o0 sp|o0 sp|o0|o0|o0 sp|o0 sp|o0|o0|o0|o0|o0] eqn:Hpc;
+    cbv zeta; brk_core; cbn [fst snd once]; try congruence.
+  all: try (unfold fupd; destruct (Nat.eqb o o0); [discriminate|congruence]).   (* the CAS 0 -> 1 *)
+  (* OStore *) unfold fupd at 1. destruct (Nat.eqb_spec o o0) as [->|Hne]; [intros _|congruence].
+    cbn [pc_obj]. unfold ohb_step. rewrite rel14. cbn [oviews orel]. rewrite !fupd_same. apply HbProof.vle_refl.
 Qed.
 
-(* once a word is 2 it stays 2, and nothing takes anything out of its release view *)
-Lemma keep_core w h t o r :
-  Inv w -> once w o = 2 -> vle r (orel h o) ->
-  once (fst (step_core w t)) o = 2 /\
-  vle r (orel (ohb_step h t (pc_obj (pc (get w t))) (snd (step_core w t))) o).
-Proof.
-  intros I H2 Hr.
-  assert (d : norun w o).
-  { destruct (inv_obj w I o) as [(a&_)|[(a&_)|(_&_&_&d)]]; [lia|lia|exact d]. }
-  unfold step_core.
-  destruct (pc (get w t)) as [|o0 sp|o0 sp|o0 sp|o0 sp|o0 sp|o0 sp] eqn:Hpc; cbv zeta; cbn [pc_obj].
-  - split; assumption.
-  - destruct (once w o0 =? 2); cbn [fst snd]; split; assumption.
-  - destruct (negb (once w o0 =? 2)); [destruct (_ && _)|]; cbn [fst snd]; split; assumption.
-  - destruct (once w o0 =? 0) eqn:E0; cbn [fst snd]; [|split; assumption].
-    assert (Hne : o <> o0) by (intros ->; rewrite H2 in E0; discriminate).
-    cbn [once]. rewrite fupd_other by exact Hne. split; [exact H2|].
-    unfold ohb_step. destruct (has_rel _); cbn [orel]; [rewrite fupd_other by exact Hne|]; exact Hr.
-  - destruct (once w o0 =? 0); cbn [fst snd]; split; assumption.
-  - assert (Hne : o <> o0) by (intros ->; exact (d t sp Hpc)).
-    cbn [fst snd once]. rewrite fupd_other by exact Hne. split; [exact H2|].
-    unfold ohb_step. cbn [orel]. rewrite fupd_other by exact Hne. exact Hr.
-  - destruct (once w o0 =? 2); cbn [fst snd]; split; assumption.
-Qed.
-
-(* a step at which a call on word o returns read 2 from that word with an acquire load *)
+(* a step at which a call on word o returns: either it read 2 from that word with an acquire load, or it is the final
+   unlock of a blocking call, whose thread read 2 earlier (pc OFinalUnlock) *)
 Lemma return_core w h t o :
+  Inv w ->
   returned (get (fst (step_core w t)) t) = o :: returned (get w t) ->
   once w o = 2 /\
-  vle (orel h o) (oviews (ohb_step h t (pc_obj (pc (get w t))) (snd (step_core w t))) t).
+  (vle (orel h o) (oviews (ohb_step h t (pc_obj (pc (get w t))) (snd (step_core w t))) t) \/
+   pc (get w t) = OFinalUnlock o).
 Proof.
-  destruct (lt_dec t (length (thr w))) as [Hlt|Hge].
+  intros I. destruct (lt_dec t (length (thr w))) as [Hlt|Hge].
   2:{ rewrite step_core_oob by lia. cbn [fst]. intros H. symmetry in H. exfalso. revert H. apply cons_neq. }
-  unfold step_core.
-  destruct (pc (get w t)) as [|o0 sp|o0 sp|o0 sp|o0 sp|o0 sp|o0 sp] eqn:Hpc; cbv zeta; cbn [pc_obj].
-  - cbn [fst]. intros H. symmetry in H. exfalso. revert H. apply cons_neq.
-  - destruct (once w o0 =? 2) eqn:E; cbn [fst snd].
-    + rewrite get_ret_same by exact Hlt. cbn [returned]. intros H. injection H as ->.
-      apply Z.eqb_eq in E. split; [exact E|].
-      unfold ohb_step. rewrite acq1. cbn [oviews]. rewrite fupd_same. apply HbProof.vle_join_r.
-    + rewrite get_set_pc_same by exact Hlt. cbn [returned]. intros H. symmetry in H. exfalso. revert H. apply cons_neq.
-  - destruct (once w o0 =? 2) eqn:E; cbn [negb andb]; [|destruct (once w o0 =? 0)]; cbn [fst snd].
-    + rewrite get_ret_same by exact Hlt. cbn [returned]. intros H. injection H as ->.
-      apply Z.eqb_eq in E. split; [exact E|].
-      unfold ohb_step. rewrite acq11. cbn [oviews]. rewrite fupd_same. apply HbProof.vle_join_r.
-    + rewrite get_set_pc_same by exact Hlt. cbn [returned]. intros H. symmetry in H. exfalso. revert H. apply cons_neq.
-    + rewrite get_set_pc_same by exact Hlt. cbn [returned]. intros H. symmetry in H. exfalso. revert H. apply cons_neq.
-  - destruct (once w o0 =? 0); cbn [fst snd].
-    + rewrite get_upd_same by exact Hlt. cbn [returned]. intros H. symmetry in H. exfalso. revert H. apply cons_neq.
-    + rewrite get_set_pc_same by exact Hlt. cbn [returned]. intros H. symmetry in H. exfalso. revert H. apply cons_neq.
-  - destruct (once w o0 =? 0); cbn [fst snd];
-      rewrite get_set_pc_same by exact Hlt; cbn [returned]; intros H; symmetry in H; exfalso; revert H; apply cons_neq.
-  - cbn [fst snd]. rewrite get_upd_same by exact Hlt. cbn [returned].
-    intros H. symmetry in H. exfalso. revert H. apply cons_neq.
-  - destruct (once w o0 =? 2) eqn:E; cbn [fst snd].
-    + rewrite get_ret_same by exact Hlt. cbn [returned]. intros H. injection H as ->.
-      apply Z.eqb_eq in E. split; [exact E|].
-      unfold ohb_step. rewrite acq15. cbn [oviews]. rewrite fupd_same. apply HbProof.vle_join_r.
-    + intros H. symmetry in H. exfalso. revert H. apply cons_neq.
+  pose proof (ti_fin _ _ _ (inv_thr w I t)) as Hfin.
+  unfold step_core, do_lock, do_unlock.
+  destruct (pc (get w t)) as [|o0 sp|o0 sp|o0 z|o0 sp|o0 sp|o0|o0 sp|o0 sp|o0|o0|o0 sp|o0 sp|o0|o0|o0|o0|o0] eqn:Hpc;
+    cbv zeta; cbn [pc_obj]; brk_core; cbn [fst snd];
+    rewrite ?get_ret_same, ?get_set_pc_same, ?get_upd_same by (try exact Hlt; unfold set_mu; cbn [thr]; exact Hlt);
+    cbn [returned with_pc];
+    try (intros H; symmetry in H; exfalso; revert H; apply cons_neq).
+  - (* OEntry, 2 *) intros H. injection H as ->. split; [apply Z.eqb_eq; assumption|]. left.
+    unfold ohb_step. rewrite acq1. cbn [oviews]. rewrite fupd_same. apply HbProof.vle_join_r.
+  - (* OImplLoad, 2 *) intros H. injection H as ->.
+    match goal with E : negb (_ =? 2) = false |- _ => apply negb_false_iff in E; apply Z.eqb_eq in E; split; [exact E|] end.
+    left. unfold ohb_step. rewrite acq11. cbn [oviews]. rewrite fupd_same. apply HbProof.vle_join_r.
+  - (* OWaitLoad (spinning), 2 *) intros H. injection H as ->. split; [apply Z.eqb_eq; assumption|]. left.
+    unfold ohb_step. rewrite acq15. cbn [oviews]. rewrite fupd_same. apply HbProof.vle_join_r.
+  - (* OFinalUnlock *) rewrite get_set_mu. intros H. injection H as ->. split; [|right; reflexivity].
+    apply Hfin. reflexivity.
 Qed.
 
-(* the same three facts for [step] = [step_core] after [begin_call] *)
+Ltac getsimp Hlt :=
+  rewrite ?get_ret_same, ?get_set_pc_same, ?get_upd_same by (try exact Hlt; unfold set_mu; cbn [thr]; exact Hlt);
+  rewrite ?get_set_mu.
+
+(* a step that takes the thread to the final unlock of a call on o: the acquire load of the wait loop read 2 *)
+Lemma final_core w h t o :
+  (t < length (thr w))%nat ->
+  pc (get (fst (step_core w t)) t) = OFinalUnlock o ->
+  once w o = 2 /\ vle (orel h o) (oviews (ohb_step h t (pc_obj (pc (get w t))) (snd (step_core w t))) t).
+Proof.
+  intros Hlt. unfold step_core, do_lock, do_unlock.
+  destruct (pc (get w t)) as [|o0 sp|o0 sp|o0 z|o0 sp|o0 sp|o0|o0 sp|o0 sp|o0|o0|o0 sp|o0 sp|o0|o0|o0|o0|o0] eqn:Hpc;
+    cbv zeta; cbn [pc_obj]; brk_core; cbn [fst snd]; getsimp Hlt; cbn [pc with_pc]; rewrite ?Hpc; try discriminate.
+  intros H. injection H as ->. split; [apply Z.eqb_eq; assumption|].
+  unfold ohb_step. rewrite acq15. cbn [oviews]. rewrite fupd_same. apply HbProof.vle_join_r.
+Qed.
+
+(* where the hand-off stands for word o and a view r:
+   either the winner has left the once-function and still has r in its view (it is at one of its last three pcs),
+   or the word is 2, r is in its release view, and in the view of every thread that is about to return from the
+   final unlock of a blocking call on o *)
+Definition phase (o : nat) (r : view) (w : world) (h : ohb) : Prop :=
+  (once w o = 2 /\ vle r (orel h o) /\ forall t, pc (get w t) = OFinalUnlock o -> vle r (oviews h t)) \/
+  (exists tw, win_info (pc (get w tw)) = Some (o, true, true) /\ vle r (oviews h tw)).
+
+Lemma phase_core w h t o r :
+  Inv w -> phase o r w h ->
+  phase o r (fst (step_core w t)) (ohb_step h t (pc_obj (pc (get w t))) (snd (step_core w t))).
+Proof.
+  intros I P.
+  destruct (lt_dec t (length (thr w))) as [Hlt|Hge].
+  2:{ rewrite step_core_oob by lia. cbn [fst snd]. rewrite get_oob by lia. cbn [pc pc_obj dflt].
+      destruct P as [(H2 & Hr & Q)|(tw & Hw & Hr)]; [left|right].
+      - repeat split; auto. intros t' Ht'. destruct (Nat.eq_dec t' t) as [->|n].
+        + rewrite get_oob in Ht' by lia. discriminate.
+        + rewrite ohb_step_other by auto. auto.
+      - exists tw. split; auto. destruct (Nat.eq_dec tw t) as [->|n].
+        + rewrite get_oob in Hw by lia. discriminate.
+        + rewrite ohb_step_other by auto. auto. }
+  set (h' := ohb_step h t (pc_obj (pc (get w t))) (snd (step_core w t))).
+  assert (Grow : vle (oviews h t) (oviews h' t)) by apply ohb_step_grows.
+  destruct P as [(H2 & Hr & Q)|(tw & Hw & Hr)].
+  - (* the word is 2 *) left.
+    assert (NW : forall sp, pc (get w t) <> OStore o sp).
+    { intros sp E. assert (once w o = 1); [|lia]. eapply (win_once1 w t o true true I). rewrite E. reflexivity. }
+    split; [|split].
+    + (* stays 2 *) revert NW. unfold step_core, do_lock, do_unlock, ret, set_pc, set_thr, set_mu.
+      destruct (pc (get w t)) as [|o0 sp|o0 sp|o0 z|o0 sp|o0 sp|o0|o0 sp|o0 sp|o0|o0|o0 sp|o0 sp|o0|o0|o0|o0|o0] eqn:Hpc;
+        cbv zeta; brk_core; cbn [fst once]; intros NW; try exact H2.
+      all: unfold fupd; destruct (Nat.eqb_spec o o0) as [->|Hne]; try exact H2; try reflexivity.
+      all: match goal with E : (once _ _ =? 0) = true |- _ => apply Z.eqb_eq in E; lia end.
+    + (* r stays in the release view *) subst h'. revert NW. unfold step_core, do_lock, do_unlock.
+      destruct (pc (get w t)) as [|o0 sp|o0 sp|o0 z|o0 sp|o0 sp|o0|o0 sp|o0 sp|o0|o0|o0 sp|o0 sp|o0|o0|o0|o0|o0] eqn:Hpc;
+        cbv zeta; cbn [pc_obj]; brk_core; cbn [fst snd]; intros NW; unfold ohb_step; try (cbn [orel]; exact Hr).
+      (* what remains: a store on another word (and the CAS 0 -> 1 on another word, should it ever ask for release) *)
+      all: assert (Hne : o <> o0)
+        by (intros ->; first [ match goal with E : (once _ _ =? 0) = true |- _ => apply Z.eqb_eq in E; lia end
+                             | eapply NW; reflexivity ]).
+      all: repeat match goal with |- context [if has_rel ?x then _ else _] => destruct (has_rel x) end;
+        cbn [orel]; rewrite ?fupd_other by exact Hne; exact Hr.
+    + (* threads at the final unlock *) intros t' Ht'. destruct (Nat.eq_dec t' t) as [->|n].
+      * destruct (final_core w h t o Hlt Ht') as [_ Hv]. eapply HbProof.vle_trans; [exact Hr|exact Hv].
+      * rewrite step_core_other in Ht' by auto. subst h'. rewrite ohb_step_other by auto. auto.
+  - (* the winner is on its way to the store *)
+    destruct (Nat.eq_dec tw t) as [->|n].
+    2:{ right. exists tw. rewrite step_core_other by auto. subst h'. rewrite ohb_step_other by auto. auto. }
+    assert (Hr' : vle r (oviews h' t)) by (eapply HbProof.vle_trans; eauto).
+    destruct (ti_win _ _ _ (inv_thr w I t) o true true Hw) as (_ & O1 & _ & _).
+    clear Grow. subst h'. revert Hr'. unfold step_core, do_lock, do_unlock.
+    destruct (pc (get w t)) as [|o0 sp|o0 sp|o0 z|o0 sp|o0 sp|o0|o0 sp|o0 sp|o0|o0|o0 sp|o0 sp|o0|o0|o0|o0|o0] eqn:Hpc;
+      cbn in Hw; try discriminate; injection Hw as ->; cbv zeta; cbn [pc_obj]; brk_core; cbn [fst snd]; intros Hr'.
+    + (* OWinLock: blocked *) right. exists t. rewrite Hpc. auto.
+    + (* OWinLock: acquired *) right. exists t. getsimp Hlt. cbn [pc with_pc]. auto.
+    + (* OWinLock: not lockable *) right. exists t. rewrite Hpc. auto.
+    + (* OBroadcast *) right. exists t. getsimp Hlt. cbn [pc with_pc]. auto.
+    + (* OStore *) left. cbn [once]. rewrite fupd_same. split; [reflexivity|]. split.
+      * revert Hr'. unfold ohb_step. rewrite rel14. cbn [oviews orel]. rewrite !fupd_same. auto.
+      * intros t' Ht'. exfalso. destruct (Nat.eq_dec t' t) as [->|n].
+        -- rewrite get_upd_same in Ht' by auto. discriminate.
+        -- rewrite get_upd_other in Ht' by auto.
+           pose proof (ti_fin _ _ _ (inv_thr w I t') o Ht'). lia.
+Qed.
+
+(* f-end: the winner leaves the once-function; from here on it carries its view to the store *)
+Lemma fend_core w h t o :
+  Inv w -> completed w o = false -> completed (fst (step_core w t)) o = true ->
+  phase o (oviews (ohb_step h t (pc_obj (pc (get w t))) (snd (step_core w t))) t)
+        (fst (step_core w t)) (ohb_step h t (pc_obj (pc (get w t))) (snd (step_core w t))).
+Proof.
+  intros I Hf H.
+  destruct (lt_dec t (length (thr w))) as [Hlt|Hge].
+  2:{ rewrite step_core_oob in H by lia. cbn [fst] in H. congruence. }
+  right. exists t. split; [|apply HbProof.vle_refl].
+  revert H. unfold step_core, do_lock, do_unlock, ret, set_pc, set_thr, set_mu.
+  destruct (pc (get w t)) as [|o0 sp|o0 sp|o0 z|o0 sp|o0 sp|o0|o0 sp|o0 sp|o0|o0|o0 sp|o0 sp|o0|o0|o0|o0|o0] eqn:Hpc;
+    cbv zeta; brk_core; cbn [fst completed]; try congruence.
+  all: unfold fupd; destruct (Nat.eqb_spec o o0) as [->|Hne]; [intros _|congruence].
+  all: rewrite get_upd_same by exact Hlt; reflexivity.
+Qed.
+
+(* the same facts for [step] = [step_core] after [begin_call] *)
+Lemma phase_begin w h t o r : phase o r w h -> phase o r (begin_call w t) h.
+Proof.
+  intros P. destruct (begin_call_cases w t) as [[-> _]|(o'&sp&rest&Hpc&Hc&->)]; [exact P|].
+  assert (Hlt : (t < length (thr w))%nat) by (apply calls_in_range; rewrite Hc; discriminate).
+  unfold set_thr. destruct P as [(H2 & Hr & Q)|(tw & Hw & Hr)]; [left|right].
+  - repeat split; auto. intros t' Ht'. destruct (Nat.eq_dec t' t) as [->|n].
+    + rewrite get_upd_same in Ht' by auto. discriminate.
+    + rewrite get_upd_other in Ht' by auto. auto.
+  - exists tw. split; auto. destruct (Nat.eq_dec tw t) as [->|n].
+    + rewrite Hpc in Hw. discriminate.
+    + rewrite get_upd_other by auto. auto.
+Qed.
+
+Lemma phase_step w h t o r : Inv w -> phase o r w h -> phase o r (fst (step w t)) (hnext h w t).
+Proof.
+  intros I P. unfold hnext. rewrite step_eq.
+  apply phase_core; [apply inv_begin_call; exact I | apply phase_begin; exact P].
+Qed.
+
 Lemma publish_step w h t o :
-  completed w o = false -> completed (fst (step w t)) o = true ->
-  once (fst (step w t)) o = 2 /\ vle (oviews (hnext h w t) t) (orel (hnext h w t) o).
+  Inv w -> once w o <> 2 -> once (fst (step w t)) o = 2 ->
+  phase o (oviews (hnext h w t) t) (fst (step w t)) (hnext h w t).
 Proof.
-  intros Hf Ht. unfold hnext. rewrite step_eq in *.
-  destruct (begin_call_shared w t) as (_ & Hc & _).
-  apply publish_core; [rewrite Hc; exact Hf | exact Ht].
-Qed.
-
-Lemma keep_step w h t o r :
-  Inv w -> once w o = 2 -> vle r (orel h o) ->
-  once (fst (step w t)) o = 2 /\ vle r (orel (hnext h w t) o).
-Proof.
-  intros I H2 Hr. unfold hnext. rewrite step_eq.
+  intros I Hf Ht. left. split; [exact Ht|].
   destruct (begin_call_shared w t) as (Ho & _ & _).
-  apply keep_core; [apply inv_begin_call; exact I | rewrite Ho; exact H2 | exact Hr].
+  split.
+  - unfold hnext. rewrite step_eq in *. apply publish_core; [rewrite Ho; exact Hf | exact Ht].
+  - (* nobody is at the final unlock of a call on o: that needs the word to be 2 already *)
+    intros t' Ht'. exfalso. apply Hf.
+    destruct (Nat.eq_dec t' t) as [->|n].
+    + rewrite step_eq in Ht'. rewrite <- Ho.
+      destruct (lt_dec t (length (thr (begin_call w t)))) as [Hlt|Hge].
+      * exact (proj1 (final_core (begin_call w t) h t o Hlt Ht')).
+      * rewrite step_core_oob in Ht' by lia. cbn [fst] in Ht'. rewrite get_oob in Ht' by lia. discriminate.
+    + rewrite step_other in Ht' by auto. exact (ti_fin _ _ _ (inv_thr w I t') o Ht').
 Qed.
 
-Lemma return_step w h t o :
-  returned (get (fst (step w t)) t) = o :: returned (get w t) ->
-  once w o = 2 /\ vle (orel h o) (oviews (hnext h w t) t).
+Lemma fend_step w h t o :
+  Inv w -> completed w o = false -> completed (fst (step w t)) o = true ->
+  phase o (oviews (hnext h w t) t) (fst (step w t)) (hnext h w t).
 Proof.
-  intros H. unfold hnext. rewrite step_eq in *.
+  intros I Hf Ht. unfold hnext. rewrite step_eq in *.
+  destruct (begin_call_shared w t) as (_ & Hc & _).
+  apply fend_core; [apply inv_begin_call; exact I | rewrite Hc; exact Hf | exact Ht].
+Qed.
+
+(* a call on o returns: the word was 2 before the step, and whatever the hand-off has in store is in the caller's view *)
+Lemma return_step w t o :
+  Inv w -> returned (get (fst (step w t)) t) = o :: returned (get w t) -> once w o = 2.
+Proof.
+  intros I H. rewrite step_eq in H.
   destruct (begin_call_shared w t) as (Ho & _ & Hr). rewrite <- Ho.
-  apply return_core. rewrite Hr. exact H.
+  rewrite <- Hr in H. exact (proj1 (return_core (begin_call w t) ohb0 t o (inv_begin_call w t I) H)).
 Qed.
 
-Lemma completed_stays w t o : Inv w -> completed w o = true -> completed (fst (step w t)) o = true.
+Lemma return_view w h t o r :
+  Inv w -> phase o r w h -> returned (get (fst (step w t)) t) = o :: returned (get w t) ->
+  vle r (oviews (hnext h w t) t).
 Proof.
-  intros I Hc.
-  assert (H2 : once w o = 2).
-  { destruct (inv_obj w I o) as [(_&_&c&_)|[(_&_&c&_)|(a&_)]]; [congruence|congruence|exact a]. }
-  destruct (keep_step w ohb0 t o vbot I H2 (HbProof.vle_refl _)) as [H2' _].
-  apply done_completed; [apply inv_step; exact I | exact H2'].
+  intros I P H. pose proof (phase_begin w h t o r P) as P1. clear P.
+  assert (I1 := inv_begin_call w t I).
+  unfold hnext. rewrite step_eq in H.
+  destruct (begin_call_shared w t) as (_ & _ & Hr). rewrite <- Hr in H.
+  destruct (return_core (begin_call w t) h t o I1 H) as [H2 Hv].
+  destruct P1 as [(_ & Hrel & Q)|(tw & Hw & _)].
+  - rewrite step_eq. destruct Hv as [Hv|Hpc].
+    + eapply HbProof.vle_trans; [exact Hrel|exact Hv].
+    + eapply HbProof.vle_trans; [exact (Q t Hpc)|apply ohb_step_grows].
+  - pose proof (win_once1 _ _ _ _ _ I1 Hw). lia.
+Qed.
+
+Lemma two_stays w t o : once w o = 2 -> once (fst (step w t)) o = 2.
+Proof.
+  intros H2. rewrite step_eq.
+  destruct (begin_call_shared w t) as (Ho & _ & _). rewrite <- Ho in H2. revert H2.
+  generalize (begin_call w t). intros w1 H2.
+  unfold step_core, do_lock, do_unlock, ret, set_pc, set_thr, set_mu.
+  destruct (pc (get w1 t)) as [|o0 sp|o0 sp|o0 z|o0 sp|o0 sp|o0|o0 sp|o0 sp|o0|o0|o0 sp|o0 sp|o0|o0|o0|o0|o0];
+    cbv zeta; brk_core; cbn [fst once]; try exact H2.
+  all: unfold fupd; destruct (Nat.eqb_spec o o0) as [->|Hne]; try exact H2; try reflexivity.
+  all: match goal with E : (once _ _ =? 0) = true |- _ => apply Z.eqb_eq in E; lia end.
+Qed.
+
+Lemma completed_stays w t o : completed w o = true -> completed (fst (step w t)) o = true.
+Proof.
+  intros Hc. rewrite step_eq.
+  destruct (begin_call_shared w t) as (_ & Hc' & _). rewrite <- Hc' in Hc. revert Hc.
+  generalize (begin_call w t). intros w1 Hc.
+  unfold step_core, do_lock, do_unlock, ret, set_pc, set_thr, set_mu.
+  destruct (pc (get w1 t)); cbv zeta; brk_core; cbn [fst completed]; try exact Hc.
+  all: unfold fupd; destruct (Nat.eqb o _); [reflexivity|exact Hc].
 Qed.
 
 (* ================================================================== *)
-(* Part 4: the hand-off theorem                                        *)
+(* Part 4: the hand-off theorems                                       *)
 (* ================================================================== *)
 Lemma run_hb_once_cons w h t rest :
   run_hb_once w h (t :: rest) =
@@ -204,76 +345,146 @@ Proof.
     + eapply IH. exact Hi.
 Qed.
 
-(* once the word is 2, anything below its release view is below the view of every caller that returns later *)
+(* program order: a thread's view only grows, and no other thread's step touches it *)
+Lemma program_order : forall sched w h i j oi oj,
+  nth_error (run_hb_once w h sched) i = Some oi -> nth_error (run_hb_once w h sched) j = Some oj ->
+  (i <= j)%nat -> ob_t oi = ob_t oj -> vle (ob_view oi) (ob_view oj).
+Proof.
+  assert (G : forall sched w h j oj u r, vle r (oviews h u) ->
+            nth_error (run_hb_once w h sched) j = Some oj -> ob_t oj = u -> vle r (ob_view oj)).
+  { induction sched as [|t rest IH]; intros w h j oj u r Hr Hj Hu.
+    - destruct j; discriminate Hj.
+    - rewrite run_hb_once_cons in Hj. destruct j as [|j]; cbn [nth_error] in Hj.
+      + injection Hj as <-. cbn [ob_t ob_view] in *. subst u.
+        eapply HbProof.vle_trans; [exact Hr | apply ohb_step_grows].
+      + eapply (IH _ _ j oj u r); [|exact Hj|exact Hu].
+        unfold hnext. destruct (Nat.eq_dec u t) as [->|n].
+        * eapply HbProof.vle_trans; [exact Hr | apply ohb_step_grows].
+        * rewrite ohb_step_other by auto. exact Hr. }
+  induction sched as [|t rest IH]; intros w h i j oi oj Hi Hj Hle Ht.
+  - destruct i; discriminate Hi.
+  - rewrite run_hb_once_cons in Hi, Hj. destruct i as [|i]; cbn [nth_error] in Hi.
+    + injection Hi as <-. cbn [ob_t ob_view] in *.
+      destruct j as [|j]; cbn [nth_error] in Hj.
+      * injection Hj as <-. cbn [ob_view]. apply HbProof.vle_refl.
+      * eapply (G rest _ _ j oj t); [apply HbProof.vle_refl | exact Hj | auto].
+    + destruct j as [|j]; [lia|]. cbn [nth_error] in Hj. eapply IH; eauto. lia.
+Qed.
+
+(* once the hand-off for word o and view r is under way, r is in the view of every caller that returns later *)
 Lemma return_later : forall sched w h j oj o r,
-  Inv w -> once w o = 2 -> vle r (orel h o) ->
+  Inv w -> phase o r w h ->
   nth_error (run_hb_once w h sched) j = Some oj -> once_returns o oj -> vle r (ob_view oj).
 Proof.
-  induction sched as [|t rest IH]; intros w h j oj o r I H2 Hr Hj Hret.
+  induction sched as [|t rest IH]; intros w h j oj o r I P Hj Hret.
   - destruct j; discriminate Hj.
   - rewrite run_hb_once_cons in Hj. destruct j as [|j]; cbn [nth_error] in Hj.
     + injection Hj as <-. unfold once_returns in Hret. cbn [ob_w ob_w' ob_t ob_view] in *.
-      destruct (return_step w h t o Hret) as [_ Hv].
-      eapply HbProof.vle_trans; [exact Hr | exact Hv].
-    + destruct (keep_step w h t o r I H2 Hr) as [H2' Hr'].
-      eapply IH; [apply inv_step; exact I | exact H2' | exact Hr' | exact Hj | exact Hret].
+      eapply return_view; eauto.
+    + eapply IH; [apply inv_step; exact I | apply phase_step; eauto | exact Hj | exact Hret].
 Qed.
 
-(* a completed word is not completed again *)
+(* a word that is 2 stays 2; a completed function is not completed again *)
 Lemma no_publish_after : forall sched w h i oi o,
-  Inv w -> completed w o = true -> nth_error (run_hb_once w h sched) i = Some oi -> ~ once_publishes o oi.
+  once w o = 2 -> nth_error (run_hb_once w h sched) i = Some oi -> ~ once_publishes o oi.
 Proof.
-  induction sched as [|t rest IH]; intros w h i oi o I Hc Hi Hpub.
+  induction sched as [|t rest IH]; intros w h i oi o H2 Hi Hpub.
   - destruct i; discriminate Hi.
   - rewrite run_hb_once_cons in Hi. destruct i as [|i]; cbn [nth_error] in Hi.
     + injection Hi as <-. destruct Hpub as [Hf _]. cbn [ob_w] in Hf. congruence.
-    + eapply (IH (fst (step w t)) (hnext h w t) i oi o);
-        [apply inv_step; exact I | apply completed_stays; assumption | exact Hi | exact Hpub].
+    + eapply (IH (fst (step w t)) (hnext h w t) i oi o); [apply two_stays; assumption | exact Hi | exact Hpub].
 Qed.
 
-Lemma handoff_gen : forall sched w h i j oi oj o,
-  Inv w ->
-  nth_error (run_hb_once w h sched) i = Some oi -> nth_error (run_hb_once w h sched) j = Some oj ->
-  once_publishes o oi -> once_returns o oj ->
-  (i < j)%nat /\ vle (ob_view oi) (ob_view oj).
+Lemma no_fend_after : forall sched w h i oi o,
+  completed w o = true -> nth_error (run_hb_once w h sched) i = Some oi -> ~ once_fn_ends o oi.
 Proof.
-  induction sched as [|t rest IH]; intros w h i j oi oj o I Hi Hj Hpub Hret.
+  induction sched as [|t rest IH]; intros w h i oi o Hc Hi Hpub.
   - destruct i; discriminate Hi.
-  - rewrite run_hb_once_cons in Hi, Hj.
-    destruct i as [|i]; cbn [nth_error] in Hi.
-    + injection Hi as <-. destruct Hpub as [Hf Ht]. cbn [ob_w ob_w' ob_view] in *.
-      destruct (publish_step w h t o Hf Ht) as [H2 Hv].
-      destruct j as [|j]; cbn [nth_error] in Hj.
-      * injection Hj as <-. unfold once_returns in Hret. cbn [ob_w ob_w' ob_t] in Hret.
-        destruct (return_step w h t o Hret) as [H2w _].
-        pose proof (done_completed w o I H2w). congruence.
-      * split; [lia|].
-        eapply return_later; [apply inv_step; exact I | exact H2 | exact Hv | exact Hj | exact Hret].
-    + destruct j as [|j]; cbn [nth_error] in Hj.
-      * injection Hj as <-. unfold once_returns in Hret. cbn [ob_w ob_w' ob_t] in Hret.
-        destruct (return_step w h t o Hret) as [H2w _].
-        pose proof (done_completed w o I H2w) as Hc.
-        exfalso. eapply (no_publish_after rest (fst (step w t)) (hnext h w t) i oi o);
-          [apply inv_step; exact I | apply completed_stays; assumption | exact Hi | exact Hpub].
-      * destruct (IH (fst (step w t)) (hnext h w t) i j oi oj o) as [Hlt Hv];
-          [apply inv_step; exact I | exact Hi | exact Hj | exact Hpub | exact Hret |].
-        split; [lia | exact Hv].
+  - rewrite run_hb_once_cons in Hi. destruct i as [|i]; cbn [nth_error] in Hi.
+    + injection Hi as <-. destruct Hpub as [Hf _]. cbn [ob_w] in Hf. congruence.
+    + eapply (IH (fst (step w t)) (hnext h w t) i oi o); [apply completed_stays; assumption | exact Hi | exact Hpub].
 Qed.
 
-(* for any number of threads, programs (calls on any words, blocking or spinning variants) and schedules:
-   the store that completes word o precedes every return of a call on o, and what the winner had in its view at the
-   store -- in particular the whole run of the once-function -- is in the view of the returning thread *)
-Lemma once_handoff : forall progs sched i j oi oj o,
-  let tr := run_hb_once (init progs) ohb0 sched in
+Section Handoff.
+  (* an event on word o that starts the hand-off and cannot happen once the word is 2 *)
+  Variable E : nat -> oobs -> Prop.
+  Hypothesis E_first : forall w h t o, Inv w ->
+    E o (mk_oobs t w (fst (step w t)) (snd (step w t)) (oviews h t) (oviews (hnext h w t) t)) ->
+    once w o <> 2 /\ phase o (oviews (hnext h w t) t) (fst (step w t)) (hnext h w t).
+  Hypothesis E_never : forall sched w h i oi o, Inv w -> once w o = 2 ->
+    nth_error (run_hb_once w h sched) i = Some oi -> ~ E o oi.
+
+  Lemma handoff_gen : forall sched w h i j oi oj o,
+    Inv w ->
+    nth_error (run_hb_once w h sched) i = Some oi -> nth_error (run_hb_once w h sched) j = Some oj ->
+    E o oi -> once_returns o oj ->
+    (i < j)%nat /\ vle (ob_view oi) (ob_view oj).
+  Proof.
+    induction sched as [|t rest IH]; intros w h i j oi oj o I Hi Hj Hev Hret.
+    - destruct i; discriminate Hi.
+    - rewrite run_hb_once_cons in Hi, Hj.
+      destruct i as [|i]; cbn [nth_error] in Hi.
+      + injection Hi as <-. destruct (E_first w h t o I Hev) as [Hn2 P]. cbn [ob_view].
+        destruct j as [|j]; cbn [nth_error] in Hj.
+        * injection Hj as <-. unfold once_returns in Hret. cbn [ob_w ob_w' ob_t] in Hret.
+          pose proof (return_step w t o I Hret). contradiction.
+        * split; [lia|].
+          eapply return_later; [apply inv_step; exact I | exact P | exact Hj | exact Hret].
+      + destruct j as [|j]; cbn [nth_error] in Hj.
+        * injection Hj as <-. unfold once_returns in Hret. cbn [ob_w ob_w' ob_t] in Hret.
+          pose proof (return_step w t o I Hret) as H2.
+          exfalso. eapply (E_never rest (fst (step w t)) (hnext h w t) i oi o);
+            [apply inv_step; exact I | apply two_stays; exact H2 | exact Hi | exact Hev].
+        * destruct (IH (fst (step w t)) (hnext h w t) i j oi oj o) as [Hlt Hv];
+            [apply inv_step; exact I | exact Hi | exact Hj | exact Hev | exact Hret |].
+          split; [lia | exact Hv].
+  Qed.
+End Handoff.
+
+(* for any environment (slots, termination, locks), any number of threads, programs (calls on any words, blocking or
+   spinning variants) and schedules: the store that makes word o 2 precedes every return of a call on o, and what the
+   winner had in its view at the store is in the view of the returning thread *)
+Lemma once_handoff : forall e progs sched i j oi oj o,
+  let tr := run_hb_once (init e progs) ohb0 sched in
   nth_error tr i = Some oi -> nth_error tr j = Some oj ->
   once_publishes o oi -> once_returns o oj ->
   (i < j)%nat /\ vle (ob_pre oi) (ob_view oj) /\ vle (ob_view oi) (ob_view oj).
 Proof.
-  intros progs sched i j oi oj o tr Hi Hj Hpub Hret. subst tr.
-  destruct (handoff_gen sched (init progs) ohb0 i j oi oj o (inv_init progs) Hi Hj Hpub Hret) as [Hlt Hv].
-  split; [exact Hlt|]. split; [|exact Hv].
-  eapply HbProof.vle_trans; [eapply pre_le_view; exact Hi | exact Hv].
+  intros e progs sched i j oi oj o tr Hi Hj Hpub Hret. subst tr.
+  destruct (handoff_gen once_publishes) with (sched := sched) (w := init e progs) (h := ohb0) (i := i) (j := j)
+    (oi := oi) (oj := oj) (o := o) as [Hlt Hv]; auto.
+  - intros w h t o' I [Hf Ht]. cbn [ob_w ob_w'] in *. split; [exact Hf|]. apply publish_step; auto.
+  - intros sched' w h i' oi' o' _ H2. apply no_publish_after; auto.
+  - apply inv_init.
+  - split; [exact Hlt|]. split; [|exact Hv].
+    eapply HbProof.vle_trans; [eapply pre_le_view; exact Hi | exact Hv].
 Qed.
+
+(* the same from the moment the once-function RETURNS (OnceModel's f-end step, which the winner makes before its store):
+   that step precedes every return of a call on o, and the winner's view at it -- the whole run of the once-function --
+   is in the view of the returning thread *)
+Lemma once_fn_handoff : forall e progs sched i j oi oj o,
+  let tr := run_hb_once (init e progs) ohb0 sched in
+  nth_error tr i = Some oi -> nth_error tr j = Some oj ->
+  once_fn_ends o oi -> once_returns o oj ->
+  (i < j)%nat /\ vle (ob_pre oi) (ob_view oj) /\ vle (ob_view oi) (ob_view oj).
+Proof.
+  intros e progs sched i j oi oj o tr Hi Hj Hpub Hret. subst tr.
+  destruct (handoff_gen once_fn_ends) with (sched := sched) (w := init e progs) (h := ohb0) (i := i) (j := j)
+    (oi := oi) (oj := oj) (o := o) as [Hlt Hv]; auto.
+  - intros w h t o' I [Hf Ht]. cbn [ob_w ob_w'] in *. split.
+    + intros H2. pose proof (done_completed w o' I H2). congruence.
+    + apply fend_step; auto.
+  - intros sched' w h i' oi' o' I H2. apply no_fend_after. apply done_completed; auto.
+  - apply inv_init.
+  - split; [exact Hlt|]. split; [|exact Hv].
+    eapply HbProof.vle_trans; [eapply pre_le_view; exact Hi | exact Hv].
+Qed.
+
+(* for the concrete examples: a property of the i-th observation, computed without destructing the trace *)
+Definition opt_holds {A} (o : option A) (P : A -> Prop) : Prop := match o with Some x => P x | None => False end.
+Lemma opt_holds_ex {A} (o : option A) (P : A -> Prop) : opt_holds o P -> exists x, o = Some x /\ P x.
+Proof. destruct o as [x|]; cbn; [eauto | contradiction]. Qed.
 
 (* ================================================================== *)
 (* Part 5: the note flag (inventory only)                              *)
